@@ -846,6 +846,21 @@ Definition check_case (cs : table * list (nat * list nat * list N * list N * lis
 '''
 
 
+def run_cases_groups(ctx, groups, shard):
+    """ctx.run_cases for several (prelude, case terms) groups in ONE parallel batch of coqc jobs.
+    Returns one sorted list of failing case indices per group."""
+    jobs, where = [], []
+    for gi, (prelude, terms) in enumerate(groups):
+        for off in range(0, len(terms), shard):
+            pre = prelude + '\nDefinition cases__ := %s.\n' % coq_list(terms[off:off + shard])
+            jobs.append((['Model.Attrs'], pre, ['bad_idx check_case cases__']))
+            where.append((gi, off))
+    out = [[] for _ in groups]
+    for (gi, off), res in zip(where, ctx.coq_eval_many(jobs)):
+        out[gi].extend(off + i for i in res[0])
+    return [sorted(x) for x in out]
+
+
 def opt_site(s):
     return 'None' if s is None else '(Some %s)' % site_term(s)
 
@@ -1124,8 +1139,7 @@ def run(ctx):
         i_kept.append(kept)
         r_terms.append(r_case_term(rec, intern))
     shard = 25
-    bad_i = ctx.run_cases(['Model.Attrs'], prelude_b + PRELUDE_I, 'check_case', i_terms, shard=shard)
-    bad_r = ctx.run_cases(['Model.Attrs'], prelude_b + PRELUDE_R, 'check_case', r_terms, shard=shard)
+    bad_i, bad_r = run_cases_groups(ctx, [(prelude_b + PRELUDE_I, i_terms), (prelude_b + PRELUDE_R, r_terms)], shard)
     cov['correspondence_I_cases'] = sum(len(k) for k in i_kept)
     cov['correspondence_R_cases'] = sum(len(r['spec']['classes']) for r in recs)
     cov['correspondence_I_disagreeing_hierarchies'] = len(bad_i)
